@@ -346,6 +346,24 @@ class Interp:
                 return FuncVal([(r, False)], None, e.id)
             if isinstance(r, ClassInfo):
                 return ClassVal(r)
+            # a local of the constructor used by a lazily evaluated attribute definition: its (only live) definition
+            if func is not None and isinstance(selfobj, Obj) and self.stack and self.stack[-1][0] == 'attr' and \
+                    self.stack[-1][1] is func and e.id not in func.params:
+                key = (func.qualname, e.id)
+                busy = getattr(self, '_local_busy', set())
+                if key not in busy:
+                    defs = [n for n in ast.walk(func.node) if isinstance(n, ast.Assign) and len(n.targets) == 1 and
+                            isinstance(n.targets[0], ast.Name) and n.targets[0].id == e.id]
+                    others = [n for n in ast.walk(func.node) if isinstance(n, (ast.AugAssign, ast.For)) and
+                              any(isinstance(y, ast.Name) and y.id == e.id for y in ast.walk(n.target))]
+                    live = [d for d in defs if self.stmt_live(selfobj, func, d)]
+                    if len(live) == 1 and not others:
+                        busy.add(key)
+                        self._local_busy = busy
+                        try:
+                            return self.eval(live[0].value, st, func, selfobj)
+                        finally:
+                            busy.discard(key)
             return Opaque(e.id)
         if isinstance(e, ast.Attribute):
             base = self.eval(e.value, st, func, selfobj)
